@@ -34,13 +34,41 @@ structure LifeInv (s : Core) : Prop extends LifeCore s where
   /-- C10: terminated applications leave the partition -/
   termGone : ∀ a ∈ s.apps, a.live = true → terminated a.state = false
 
-/-- C10, the clause about asks (`_partial`: it is broken by a node removal that rolls back an in-flight swap of a
-    Completing application, KNOWN_FINDINGS C10.completing-with-pending-ask+swap-rolled-back-by-node-removal). -/
+/-- C10, the clause about asks.  (Before the repair 20ee082 of `Application.DeallocateAsk` it was broken by a node
+    removal that rolled back an in-flight swap of a Completing application — the former KNOWN_FINDINGS entry
+    C10.completing-with-pending-ask+swap-rolled-back-by-node-removal; now `deallocAppRun` moves the application back to
+    Running and the clause holds along every history.) -/
 structure NoPendInv (s : Core) : Prop where
   /-- a Completing application has no outstanding ask (an ask moves it back to Running) -/
   completingNoPending : ∀ a ∈ s.apps, a.live = true → a.state = "Completing" → ∀ i ∈ a.items, i.outstanding = false
   /-- a Completed application has no outstanding ask -/
   completedNoAsk : ∀ a ∈ s.apps, a.state = "Completed" → ∀ i ∈ a.items, i.outstanding = false
+
+/-- The clause about asks for one application record as it also holds in the middle of a node removal: there an
+    application that has just become Completed is still listed as live (it leaves, and its asks are dropped, when the
+    loop over the node's allocations is done: `sweepTerminated`), and a later round of the loop may roll a swap of it
+    back; so the clause about Completed only speaks about the records that have left the partition. -/
+structure AppNoPendMid (a : CApp) : Prop where
+  completingNoPending : a.live = true → a.state = "Completing" → ∀ i ∈ a.items, i.outstanding = false
+  completedNoAsk : a.live = false → a.state = "Completed" → ∀ i ∈ a.items, i.outstanding = false
+
+/-- `NoPendInv` in the middle of a node removal -/
+def NoPendMid (s : Core) : Prop := ∀ a ∈ s.apps, AppNoPendMid a
+
+theorem NoPendInv.mid {s : Core} (h : NoPendInv s) : NoPendMid s :=
+  fun a ha => ⟨h.completingNoPending a ha, fun _ => h.completedNoAsk a ha⟩
+
+/-- once the terminated applications have left, the clause holds in full again -/
+theorem NoPendMid.inv {s : Core} (h : NoPendMid s) (ht : ∀ a ∈ s.apps, a.live = true → terminated a.state = false) :
+    NoPendInv s := by
+  refine ⟨fun a ha => (h a ha).completingNoPending, ?_⟩
+  intro a ha hst
+  cases hl : a.live with
+  | false => exact (h a ha).completedNoAsk hl hst
+  | true =>
+    have := ht a ha hl
+    rw [hst] at this
+    exact absurd this (by decide)
 
 /-! ### sums that are zero -/
 
